@@ -662,3 +662,42 @@ Proof.
   rewrite (N.mod_small (fe_val v mod fe_p) (256 ^ N.of_nat 32)) by (eapply N.lt_trans; [exact B|reflexivity]).
   apply N.mod_small. eapply N.lt_trans; eassumption.
 Qed.
+
+(** Mult32: multiplication by a 32-bit constant (exported by the field package, unused by the points) *)
+Lemma mul51_spec a b : a < 4503599627370496 -> b < 4294967296 ->
+  fst (mul51 a b) = (a * b) mod 2251799813685248 /\ snd (mul51 a b) = (a * b) / 2251799813685248.
+Proof.
+  intros Ha Hb. unfold mul51. cbn [fst snd].
+  assert (Hp : a * b < 4503599627370496 * 4294967296) by nia.
+  generalize dependent (a * b). intros p Hp.
+  pose proof (shiftRightBy51_spec (mk128 (wrap p) (hi64 p))) as S. unfold shiftRightBy51, v128, wf128 in S. cbn [lo hi] in S.
+  rewrite !wrap_eq, !hi64_eq in *. rewrite lo51_eq.
+  split; [lia|]. rewrite S by lia. lia.
+Qed.
+
+Lemma fe_mult32_spec x y : loose x -> y < 4294967296 ->
+  limbs_lt (2251799813685248 + 274877906944) (fe_mult32 x y) /\ fe_val (fe_mult32 x y) mod fe_p = (fe_val x * y) mod fe_p.
+Proof.
+  destruct x as [a0 a1 a2 a3 a4]. unfold loose, limbs_lt. cbn [l0 l1 l2 l3 l4]. intros (A0 & A1 & A2 & A3 & A4) Hy.
+  unfold fe_mult32. cbn [l0 l1 l2 l3 l4].
+  replace (fe_val {| l0 := a0; l1 := a1; l2 := a2; l3 := a3; l4 := a4 |} * y) with
+    (a0 * y + 2251799813685248 * (a1 * y) + 5070602400912917605986812821504 * (a2 * y)
+     + 11417981541647679048466287755595961091061972992 * (a3 * y)
+     + 25711008708143844408671393477458601640355247900524685364822016 * (a4 * y))
+    by (rewrite fe_val_eq; cbn [l0 l1 l2 l3 l4]; ring).
+  destruct (mul51_spec a0 y A0 Hy) as [L0 H0]. destruct (mul51_spec a1 y A1 Hy) as [L1 H1].
+  destruct (mul51_spec a2 y A2 Hy) as [L2 H2]. destruct (mul51_spec a3 y A3 Hy) as [L3 H3].
+  destruct (mul51_spec a4 y A4 Hy) as [L4 H4].
+  destruct (mul51 a0 y) as [x0lo x0hi], (mul51 a1 y) as [x1lo x1hi], (mul51 a2 y) as [x2lo x2hi],
+    (mul51 a3 y) as [x3lo x3hi], (mul51 a4 y) as [x4lo x4hi]. cbn [fst snd] in *. subst.
+  assert (P0 : a0 * y < 4503599627370496 * 4294967296) by nia. assert (P1 : a1 * y < 4503599627370496 * 4294967296) by nia.
+  assert (P2 : a2 * y < 4503599627370496 * 4294967296) by nia. assert (P3 : a3 * y < 4503599627370496 * 4294967296) by nia.
+  assert (P4 : a4 * y < 4503599627370496 * 4294967296) by nia.
+  generalize dependent (a0 * y). intros p0 P0. generalize dependent (a1 * y). intros p1 P1.
+  generalize dependent (a2 * y). intros p2 P2. generalize dependent (a3 * y). intros p3 P3.
+  generalize dependent (a4 * y). intros p4 P4.
+  rewrite (wrap_small (19 * (p4 / 2251799813685248))) by lia. rewrite !wrap_small by lia.
+  cbn [l0 l1 l2 l3 l4]. split; [repeat split; lia|].
+  symmetry. apply mod_of_eq with (k := p4 / 2251799813685248).
+  rewrite !fe_val_eq, fe_p_eq. cbn [l0 l1 l2 l3 l4]. lia.
+Qed.
